@@ -18,6 +18,9 @@
 struct ud { int len; unsigned char bytes[8]; int base64; const char *name; };
 static struct ud UDS[] = {
   {0, "", 0, "empty"}, {1, "a", 0, NULL}, {2, "<&", 0, "n2"}, {3, "\"'>", 0, "three"}, {4, "abcd", 0, "four"},
+  /* the given length is shorter than the buffer's own string (the callback hands out a slice of a larger buffer); a carriage
+   * return with no markup character next to it (allowed in plain userdata, XML parsers turn a raw CR into LF) */
+  {3, "abcdefg", 0, "cut"}, {3, "a\rb", 0, "cr"}, {4, "\r\n\tx", 0, "crlf"},
   {0, "", 1, "b0"}, {1, {0}, 1, "b1"}, {2, {0xff, 0x00}, 1, NULL}, {3, {1, 2, 3}, 1, "b3"}, {4, {0x80, 0x0a, 0x09, 0x7f}, 1, "b&4"}, {5, {'x', 0, 'y', 0, 'z'}, 1, "b5"},
 };
 #define NUDS (sizeof(UDS) / sizeof(UDS[0]))
